@@ -133,7 +133,53 @@ func typeStr(t types.Type) string {
 			t = impl
 		}
 	}
-	return types.TypeString(t, func(pk *types.Package) string { return pk.Path() })
+	return types.TypeString(unaliasDeep(t), func(pk *types.Package) string { return pk.Path() })
+}
+
+// roleTypeMatch: the field's type is the role's type, or a defined type over it (type idSet map[uint32]struct{}):
+// a container given a name and methods is still that container.
+func roleTypeMatch(t types.Type, want string) bool {
+	if typeStr(t) == want {
+		return true
+	}
+	if n, ok := types.Unalias(t).(*types.Named); ok {
+		switch n.Underlying().(type) {
+		case *types.Map, *types.Slice, *types.Chan:
+			return typeStr(n.Underlying()) == want
+		}
+	}
+	return false
+}
+
+// unaliasDeep: the type with every alias (type idSet = map[uint32]struct{}) replaced by what it stands for,
+// also inside containers; an alias gives a type another spelling, not another identity.
+func unaliasDeep(t types.Type) types.Type {
+	switch v := t.(type) {
+	case *types.Alias:
+		return unaliasDeep(types.Unalias(v))
+	case *types.Map:
+		k, e := unaliasDeep(v.Key()), unaliasDeep(v.Elem())
+		if k != v.Key() || e != v.Elem() {
+			return types.NewMap(k, e)
+		}
+	case *types.Slice:
+		if e := unaliasDeep(v.Elem()); e != v.Elem() {
+			return types.NewSlice(e)
+		}
+	case *types.Array:
+		if e := unaliasDeep(v.Elem()); e != v.Elem() {
+			return types.NewArray(e, v.Len())
+		}
+	case *types.Pointer:
+		if e := unaliasDeep(v.Elem()); e != v.Elem() {
+			return types.NewPointer(e)
+		}
+	case *types.Chan:
+		if e := unaliasDeep(v.Elem()); e != v.Elem() {
+			return types.NewChan(v.Dir(), e)
+		}
+	}
+	return t
 }
 
 // resolveRoles attaches every role whose name is gone to the field that plays it (see fieldRoles).
@@ -166,7 +212,7 @@ func (p *Program) resolveRoles() {
 		for _, r := range roles {
 			found := false
 			for _, f := range fields {
-				if f.Name() == r.field && typeStr(f.Type()) == r.typeStr {
+				if f.Name() == r.field && roleTypeMatch(f.Type(), r.typeStr) {
 					present[f] = true
 					found = true
 					if p.plainLookup(r.pkg, r.typ, r.field) == nil {
@@ -183,7 +229,7 @@ func (p *Program) resolveRoles() {
 			// a field that carries the role's name with another type (the name was reused for the sub-struct
 			// that now holds the role's field) is not the role
 			for _, f := range fields {
-				if f.Name() == r.field && typeStr(f.Type()) != r.typeStr {
+				if f.Name() == r.field && !roleTypeMatch(f.Type(), r.typeStr) {
 					if p.shadowed == nil {
 						p.shadowed = map[*types.Var]bool{}
 					}
@@ -192,7 +238,7 @@ func (p *Program) resolveRoles() {
 			}
 			var cands []*types.Var
 			for _, f := range fields {
-				if !present[f] && typeStr(f.Type()) == r.typeStr && (p.roleName[f] == "" || p.roleName[f] == r.field) {
+				if !present[f] && roleTypeMatch(f.Type(), r.typeStr) && (p.roleName[f] == "" || p.roleName[f] == r.field) {
 					// (a field of a struct embedded by several owners plays the same role in each of them)
 					cands = append(cands, f)
 				}
@@ -230,10 +276,21 @@ func (p *Program) roleRemoved(typeField string) (bool, string) {
 		if !ok {
 			return false, ""
 		}
+		// fewer fields of the role's type than roles of that type: the one that cannot be attached is gone
+		// (the others still answer to their names)
+		have, want := 0, 0
 		for _, f := range p.deepFields(nt, 0) {
-			if typeStr(f.Type()) == r.typeStr || typeStr(f.Type()) == "*"+r.typeStr || "*"+typeStr(f.Type()) == r.typeStr {
-				return false, ""
+			if roleTypeMatch(f.Type(), r.typeStr) || typeStr(f.Type()) == "*"+r.typeStr || "*"+typeStr(f.Type()) == r.typeStr {
+				have++
 			}
+		}
+		for _, o := range fieldRoles {
+			if o.pkg == r.pkg && o.typ == r.typ && o.typeStr == r.typeStr {
+				want++
+			}
+		}
+		if have >= want {
+			return false, ""
 		}
 		return true, r.typeStr
 	}
